@@ -360,11 +360,13 @@ func (n *node) RegisterName(name gen.Atom, pid gen.PID) error {
 	if p.registered.CompareAndSwap(false, true) == false {
 		return gen.ErrTaken
 	}
+	lib.VerifPoint(pid, "regname:claimed")
 
 	if _, exist := n.names.LoadOrStore(name, p); exist {
 		p.registered.Store(false)
 		return gen.ErrTaken
 	}
+	lib.VerifPoint(pid, "regname:stored")
 
 	p.name = name
 
